@@ -207,6 +207,12 @@ def families(tier, seed):
     # isotope labelled units: the heavy-atom mass is the isotope's
     yield Instance("isotope-unit", mol(tok("N"), sto("[>]", ["[<][13CH2][13CH2][>]", "[<]C[14CH2][>]"], [], "[<]", g0(55.0)), tok("F")), family="chemistry")
     yield Instance("isotope-endstart", mol(sto("[]", ["[$]C[13CH2][$]"], ["[$][H]", "[$]Br"], "[]", g0(57.0))), family="end-initiated")
+    # the same fragment written in two atom orders inside one object (end groups in reading direction on both ends);
+    # isotope labelled hydrogens written before the atom that carries the descriptor
+    yield Instance("same-fragment-two-spellings", mol(sto("[]", ["[<]CC[>]"], ["FC(F)(F)[>]", "[<]C(F)(F)F"], "[]", g0(30.0))), family="chemistry")
+    yield Instance("same-fragment-two-spellings-acyl", mol(sto("[]", ["[<]CO[>]"], ["ClC(=O)[>]", "[<]C(=O)Cl"], "[]", g0(30.0))), family="chemistry")
+    yield Instance("deuterated-end-groups", mol(sto("[]", ["[<]CC[>]"], ["[2H]C([2H])([2H])[>]", "[<]C([2H])([2H])[2H]"], "[]", g0(30.0))), family="chemistry")
+    yield Instance("same-fragment-units", mol(tok("N"), sto("[>]", ["[<]CCO[>]", "[<]OCC[>]", "[<]C(O)C[>]"], [], "[<]", g0(80.0)), tok("F")), family="chemistry")
     # 12. bare stochastic object with open ends / molecule without suffix
     yield Instance("open-right", mol(tok("N"), sto("[>]", [a, b], [], "[<]", g0(40.0))), family="open-ends")
     # 13. aromatic / charged / ring unit mixes
